@@ -84,7 +84,7 @@ Inductive caseT :=
 | TFile (file : str) (jd : option metaJ) (dtab : list (str * bool)) (ztab : list (str * option str))
         (obs : metaJ) (ffilters : filters) (dict : list str) (blocks : list fblock)
 | TPoolGet (size cap : Z)
-| TOwn (next : nat) (evs : list oev).
+| TOwn (next : N) (evs : list oev).
 
 Definition scan_res_eqb (a b : list str * bool) : bool := list_eqb str_eqb (fst a) (fst b) && eqb (snd a) (snd b).
 
